@@ -452,7 +452,7 @@ def adapters(ck):
           key="FunctionHandler::process|return")
 
 
-def logmessage(ck, rid=rid):
+def logmessage(ck, rid="C01-O6"):
     F = ck.facts
     rec = F.record(LM)
     nonconst = sorted(f["name"] for f in rec["fields"] if not f["const"])
